@@ -353,6 +353,11 @@ func checkC19(c C19Case) Verdict {
 				switch at % 4 {
 				case 1:
 					failing, alsoOK = []string{"{call .other data=\"['p': $a.nokey.deeper]\" /}"}, -1
+					if (c.Fault/8)%2 == 1 {
+						// bytes that are not valid UTF-8 in front of the failing reference (however the
+						// attribute's text is decoded, the error belongs to this line of this file)
+						failing = []string{"{call .other data=\"['p': '" + strings.Repeat("\xff\xfe", 40) + "' + $a.nokey.deeper]\" /}"}
+					}
 				case 2:
 					failing = []string{"{call .other}", "{param key=\"p\" value=\"$a.nokey.deeper\" /}", "{/call}"}
 				case 3:
